@@ -13,7 +13,7 @@ Definition known_ctor : list (string * string) := [
   ("KNeighborsTimeSeriesClassifier", "**"); ("KNeighborsTimeSeriesClassifier", "weights");
   ("BaseStrategy", "estimator"); ("BaseStrategy", "name");
   ("Deseasonalizer", "sp");
-  ("ElasticEnsemble", "distance_measures");
+  ("ElasticEnsemble", "distance_measures"); ("ColumnEnsembleClassifier", "remainder");
   ("HIVECOTEV1", "stc_params"); ("HIVECOTEV1", "tsf_params"); ("HIVECOTEV1", "rise_params");
   ("HIVECOTEV1", "cboss_params");
   ("MeanSquaredScaledError", "sp");
